@@ -40,6 +40,8 @@ def parseAct (w : String) : Option Act :=
     | 'd' => (numLt r 1000).map .disable
     | 'x' => (numLt r 1000).map .destroy
     | 'c' => (numLt r nSlots).map .close
+    | 'k' => (numLt r nSlots).map .kill
+    | 'o' => (numLt r nSlots).map .oob
     | 'r' => (numLt r nSlots).map (.setR · true)
     | 'u' => (numLt r nSlots).map (.setR · false)
     | 'w' => (numLt r nSlots).map (.setW · true)
@@ -52,9 +54,27 @@ def parseScript (w : String) (self : Nat) : Option (List Act) :=
     let a ← parseAct item
     if a == .destroy self then none else some a
 
+/-- one pass of a run, for the comparison of the two back-ends (`cmp`): a digest of the model state
+before the pass, whether the pass satisfies the order-independence criterion, the order in which the
+kernel listed the ready descriptors, and the callbacks made (sorted) -/
+structure PassRec where
+  digest : String
+  syn : Bool
+  order : List Nat
+  keys : List (Nat × Nat)
+
+def insKey (k : Nat × Nat) : List (Nat × Nat) → List (Nat × Nat)
+  | [] => [k]
+  | x :: xs => if k.1 < x.1 || (k.1 == x.1 && k.2 ≤ x.2) then k :: x :: xs else x :: insKey k xs
+def sortKeys (l : List (Nat × Nat)) : List (Nat × Nat) := l.foldr insKey []
+
 structure TAcc where
   s : State := init
   be : Backend := .epoll
+  cur : List PassRec := []
+  prev : Option (List PassRec) := none
+  maxE : Nat := 4          -- EpollLoop::max_loop_entries_ (the harness is built with DEFAULT_MAX_LOOP_ENTRIES=4)
+  timer : Bool := false    -- op `tm`: a 1 ms timer is armed; every pass advances the clock by 1 ms
   tl : List String := []
   tags : List String := []
   err : Option String := none
@@ -70,12 +90,17 @@ def expectLine (a : TAcc) (want : String) (what : String) : TAcc :=
 
 /-! ### replay of one pass with the lines the real loop must print -/
 
-def scriptRets (s : State) : List Act → State × String
-  | [] => (s, "")
+def actTags (s : State) : Act → List String
+  | .init e _ _ _ => if (s.evs e).alive && (s.evs e).enabled then ["init-while-enabled"] else []
+  | .destroy e => if (s.evs e).alive && (s.evs e).enabled then ["destroy-while-enabled"] else []
+  | _ => []
+
+def scriptRets (s : State) : List Act → State × String × List String
+  | [] => (s, "", [])
   | x :: xs =>
     let r := act s x
     let r2 := scriptRets r.1 xs
-    (r2.1, (if r.2 then "1" else "0") ++ r2.2)
+    (r2.1, (if r.2 then "1" else "0") ++ r2.2.1, actTags s x ++ r2.2.2)
 
 /-- expected line, the model state just before it (for diagnosis) -/
 abbrev Exp := List (String × State)
@@ -92,13 +117,15 @@ def rpEvent (w : Wait) (f m : Nat) (p : Rp) (e : Nat) : Rp :=
   else
     let l1 := s!"F {e} {m} en={bitsOf r.1}"
     let sr := scriptRets r.1 v.script
-    let rets := if sr.2.isEmpty then "-" else sr.2
+    let rets := if sr.2.1.isEmpty then "-" else sr.2.1
     let l2 := s!"E {e} rets={rets} en={bitsOf sr.1}"
     let t := (if v.oneshot then ["oneshot"] else [])
       ++ (if v.script.any (fun x => match x with | .destroy _ => true | _ => false) then ["cb-destroy"] else [])
       ++ (if v.script.any (fun x => match x with | .close _ => true | _ => false) then ["cb-close"] else [])
       ++ (if v.script.any (fun x => match x with | .init _ _ _ _ => true | _ => false) then ["cb-init"] else [])
       ++ (if (List.range nSlots).any (fun g => sr.1.gen g != r.1.gen g) then ["cb-fd-reuse"] else [])
+      ++ (if sr.1.breach && !r.1.breach then ["cb-close-while-referenced"] else [])
+      ++ (if m &&& 4 != 0 then ["except-ready"] else []) ++ sr.2.2
     { s := sr.1, out := p.out ++ [(l1, p.s), (l2, r.1)], tags := p.tags ++ t }
 
 def rpLoop (w : Wait) (f m : Nat) : Rp → List Nat → Rp
@@ -118,8 +145,14 @@ def rpFd (w : Wait) (p : Rp) (fm : Nat × Nat) : Rp :=
 def rpPass (s : State) (ready : List (Nat × Nat)) : Rp :=
   ready.foldl (rpFd (waitOf s ready)) { s := s, tags := if ready.length ≥ 2 then ["multi-ready"] else [] }
 
-def cbKeys (s : State) : List (Nat × Nat) :=
-  s.log.filterMap fun o => match o with | .cb c => some (c.e, c.m) | _ => none
+def stateDigest (s : State) : String :=
+  let slots := (List.range nSlots).map fun f =>
+    let subs := match s.recs f with | some r => toString r.subs | none => "-"
+    s!"{f}:{actualMask s f}:{s.kern f}:{subs}:{s.isOpen f}"
+  let evs := (List.range s.nEv).map fun e =>
+    let v := s.evs e
+    s!"{v.alive},{v.inited},{v.fd},{v.mask},{v.oneshot},{v.enabled}"
+  " ".intercalate slots ++ " | " ++ " ".intercalate evs ++ s!" | {s.breach}"
 
 def parseReady (w : String) : Option (List (Nat × Nat)) :=
   if w == "-" then some [] else
@@ -158,12 +191,32 @@ def matchExp (a : TAcc) : Exp → TAcc
 def doPass (a : TAcc) : TAcc :=
   match a.tl with
   | [] => fail a "pass: no K line from the implementation"
-  | l :: rest =>
+  | l :: rest0 =>
+    -- loop order: wait, expired timers, fd events, next-funcs: the timer callback comes right after the wait
+    let tmOk := !a.timer || rest0.head? == some "TM"
+    let rest := if a.timer then rest0.drop 1 else rest0
+    if !tmOk then fail a s!"timer armed: expected TM right after the wait, impl=[{rest0.head?.getD "<missing>"}]" else
     match words l with
     | ["K", i, r] =>
       let wantI := "i=" ++ interestStr a.be a.s
       if i != wantI then fail a s!"kernel interest at wait: impl=[{i}] model=[{wantI}]" else
       if !r.startsWith "r=" then fail a s!"unparsable K line [{l}]" else
+      -- select fails with EBADF iff a closed descriptor is in its sets; then removeInvalidFds runs instead of a dispatch
+      let invalid := (List.range nSlots).filter fun f => (a.s.recs f).isSome && !a.s.isOpen f
+      let badf := a.be == .select && badfTrigger a.s invalid
+      if badf != (r == "r=EBADF") then
+        fail a s!"select EBADF: impl=[{r}] model={if badf then "EBADF expected (a closed descriptor is watched)" else "no EBADF expected"}"
+      else if badf then
+        let s' := removeInvalid a.s invalid
+        let a := { a with cur := a.cur ++ [{ digest := stateDigest a.s, syn := true, order := [], keys := [] }] }
+        match rest with
+        | l2 :: _ =>
+          if l2.startsWith "F " || l2.startsWith "E " then fail a s!"callback in an EBADF pass: impl=[{l2}]"
+          else expectLine { a with tl := rest, s := s', tags := a.tags ++ ["ebadf-pass"] ++
+                  (if invalid.any (fun f => match a.s.recs f with | some r => r.subs.length ≥ 3 | none => false) then ["ebadf-3subs"] else []) }
+                ("P en=" ++ bitsOf s') "after EBADF pass"
+        | [] => fail a "after EBADF pass: impl=<missing>"
+      else
       match parseReady (r.drop 2).toString with
       | none => fail a s!"unparsable K line [{l}]"
       | some ready =>
@@ -172,7 +225,12 @@ def doPass (a : TAcc) : TAcc :=
         else
           let missing := (List.range nSlots).filter fun f =>
             (interest a.be a.s f &&& actualMask a.s f) != 0 && !(ready.map (·.1)).contains f
-          if !missing.isEmpty then fail a s!"ready descriptors {missing} missing from the kernel's list [{r}]" else
+          let full := a.be == .epoll && ready.length ≥ a.maxE
+          if a.be == .epoll && ready.length > a.maxE then
+            fail a s!"epoll_wait returned {ready.length} events, max_loop_entries is {a.maxE}" else
+          if !missing.isEmpty && !full then fail a s!"ready descriptors {missing} missing from the kernel's list [{r}]" else
+          let a := { a with maxE := if full then a.maxE + a.maxE / 2 else a.maxE,
+                            tags := a.tags ++ (if full then ["epoll-grow"] else []) ++ (if full && !missing.isEmpty then ["epoll-truncated"] else []) }
           let p := rpPass a.s ready
           let sm := pass a.s ready
           if bitsOf sm != bitsOf p.s || cbKeys sm != cbKeys p.s then
@@ -189,7 +247,12 @@ def doPass (a : TAcc) : TAcc :=
                 let ncb := (cbKeys p.s).length - (cbKeys a.s).length
                 let tg := if ncb = 0 then "pass0" else if ncb = 1 then "pass1" else "passN"
                 let tb := if a.be == .select then "select" else "epoll"
-                expectLine { a1 with s := p.s, tags := a1.tags ++ p.tags ++ [tg, tb] } ("P en=" ++ bitsOf p.s) "after pass"
+                let syn := OrderIndepSyn a.s ready
+                let pr : PassRec := { digest := stateDigest a.s, syn := syn, order := ready.map (·.1),
+                                      keys := sortKeys ((cbKeys p.s).take ncb) }
+                expectLine { a1 with s := p.s, cur := a1.cur ++ [pr],
+                                     tags := a1.tags ++ p.tags ++ [tg, tb] ++ (if syn && ready.length ≥ 2 then ["order-indep-syn"] else []) }
+                  ("P en=" ++ bitsOf p.s) "after pass"
             | [] => fail a1 "after pass: impl=<missing>"
     | _ => fail a s!"pass: expected a K line, impl=[{l}]"
 
@@ -197,7 +260,44 @@ def stepOp (a : TAcc) (line : String) : TAcc :=
   if a.err.isSome then a else
   let a := { a with nops := a.nops + 1 }
   match words line with
+  | ["cmp"] =>
+    -- compare the passes of this run with those of the previous run (the other back-end, same ops)
+    match a.prev with
+    | none => expectLine { a with tags := a.tags ++ ["cmp-nothing"] } "P cmp" "cmp"
+    | some p =>
+      let rec go (k : Nat) : List PassRec → List PassRec → Option String × List String
+        | x :: xs, y :: ys =>
+          if x.digest != y.digest then (none, ["cmp-diverged"])
+          else if sortKeys (x.order.map (·, 0)) != sortKeys (y.order.map (·, 0)) then
+            (none, ["cmp-ready-set-differs"])      -- epoll_wait filled its array: the kernel did not report the same descriptors
+          else if !(x.syn && y.syn) then (none, ["cmp-order-dependent"])
+          else if x.keys != y.keys then
+            (some s!"back-ends disagree in pass {k} although it satisfies OrderIndepSyn: first run {x.keys} (order {x.order}), second run {y.keys} (order {y.order})", [])
+          else
+            let r := go (k + 1) xs ys
+            (r.1, (if x.order != y.order && x.order.length ≥ 2 then ["cmp-order-differs"] else []) ++ ["cmp-agree"] ++ r.2)
+        | _, _ => (none, [])
+      let r := go 1 p a.cur
+      match r.1 with
+      | some msg => fail a msg
+      | none => expectLine { a with tags := a.tags ++ r.2 } "P cmp" "cmp"
+  | ["tm"] =>
+    if a.timer then expectLine a "bad-op" "malformed op"
+    else expectLine { a with timer := true, tags := a.tags ++ ["timer"] } "P tm" "tm"
+  | ["bulk", n] =>
+    match numLt n 201 with
+    | none => expectLine a "bad-op" "malformed op"
+    | some n =>
+      if n = 0 then expectLine a "bad-op" "malformed op" else
+      let base := a.s.nEv
+      let s1 := (List.range n).foldl (fun s i =>
+        let s := step s (.newEv [])
+        (act s (.init (base + i) (100 + i) 0 false)).1) a.s
+      let s2 := (List.range n).foldl (fun s i => (act s (.destroy (base + i))).1) s1
+      expectLine { a with s := s2, tags := a.tags ++ [if n > poolKeep then "bulk>keep" else "bulk"] }
+        ("P ret=1 en=" ++ bitsOf s2) "bulk"
   | ["be", k] =>
+    let a := { a with prev := (if a.cur.isEmpty then a.prev else some a.cur), cur := [], maxE := 4, timer := false }
     if k == "epoll" then expectLine { a with s := init, be := .epoll } "P be=epoll" "be"
     else if k == "select" then expectLine { a with s := init, be := .select } "P be=select" "be"
     else expectLine a "bad-op" "malformed op"
@@ -213,8 +313,10 @@ def stepOp (a : TAcc) (line : String) : TAcc :=
     | none => expectLine a "bad-op" "malformed op"
     | some x =>
       let r := act a.s x
-      let t := match x with
-        | .close _ => if r.2 then ["fd-reuse"] else ["close-refused"]
+      let t := actTags a.s x ++ match x with
+        | .close f => ["fd-reuse"] ++ (if (a.s.recs f).isSome then ["close-while-referenced"] else [])
+        | .kill f => if r.2 then ["kill"] ++ (if (a.s.recs f).isSome then ["close-while-referenced"] else []) else []
+        | .oob _ => ["oob"]
         | _ => []
       expectLine { a with s := r.1, tags := a.tags ++ t } ("P ret=" ++ (if r.2 then "1" else "0") ++ " en=" ++ bitsOf r.1) "api result"
   | _ => expectLine a "bad-op" "malformed op"
